@@ -400,7 +400,25 @@ class SReal:
             oe = lift(o)
         except TypeError:
             return NotImplemented
-        return SBool(f(lift(self), oe))
+        a = lift(self)
+        # sqrt is monotone: comparing two square-root symbols (or one with a non-negative constant)
+        # is comparing their arguments -- keeps the query free of the auxiliary symbols
+        try:
+            ctx = cur()
+            sq = {r.get_id(): arg for r, arg in ctx._sqrt.values()}
+        except Exception:  # noqa: BLE001
+            sq = {}
+        if sq and a.get_id() in sq:
+            if oe.get_id() in sq:
+                return SBool(f(sq[a.get_id()], sq[oe.get_id()]))
+            c = _const_value(oe)
+            if c is not None and c >= 0:
+                return SBool(f(sq[a.get_id()], rv(fractions.Fraction(c) ** 2)))
+        elif sq and oe.get_id() in sq:
+            c = _const_value(a)
+            if c is not None and c >= 0:
+                return SBool(f(rv(fractions.Fraction(c) ** 2), sq[oe.get_id()]))
+        return SBool(f(a, oe))
 
     def __lt__(self, o):
         return self._cmp(o, lambda a, b: a < b)
